@@ -108,9 +108,9 @@ def bind_handler_roles(b):
     """Roles common to the tenant-scoped RPC handlers (call before the first flow.Origin of the body)."""
     # the context unwrapped by `if let Some(tenant) = &tenant` is a role of its own: it shadows the Option in the source, it must not be taken for it here
     bind_each(b, 'tenant_ctx', r'^&kyrodb_server::TenantContext$', r'@Some→Some\.0$')
-    # tenant: the Option<TenantContext> that tenant_context(&request)? produced and that the handler passes on (as_ref) to the rate limiter / id mapping
-    util.bind_role(b, 'tenant', type_rx=T_OPT_TENANT, assigned_from=r'KyroDBServiceImpl::tenant_context$',
-                   used_as=(r'KyroDBServiceImpl::(enforce_rate_limit|map_doc_id)$', 1))
+    # tenant: the Option<TenantContext> that tenant_context(&request)? produced and that the handler hands (as_ref) to the service's own methods
+    # (rate limiter, id mapping, search); the `?` temporary with the same type and origin is never handed on
+    util.bind_role(b, 'tenant', type_rx=T_OPT_TENANT, assigned_from=r'KyroDBServiceImpl::tenant_context', used_as=(r'KyroDBServiceImpl::\w+$', 1))
     bind_namespace_roles(b)
 
 
@@ -392,7 +392,7 @@ def run(ctx, prog):
     util.bind_role(b, 'filters', type_rx=r'^alloc::vec::Vec<kyrodb_engine::proto::MetadataFilter>$', origin_rx=NEW_VEC)
     util.bind_role(b, 'combined', type_rx=r'^kyrodb_engine::proto::MetadataFilter$', used_as=(r'TieredEngine::batch_delete_by_metadata_filter$', 1))
     ov = flow.Origin(b, stop_at_vars=True)
-    pushes =[c.bb for c in b.calls if c.callee and c.callee.endswith('::push') and c.args and flow.render(ov.of_operand(c.args[0])) == 'var:filtered']
+    pushes = [c.bb for c in b.calls if c.callee and c.callee.endswith('::push') and c.args and flow.render(ov.of_operand(c.args[0])) == 'var:filtered']
     raw = [c.bb for c in b.calls_to('TieredEngine::batch_delete') if 'filtered' not in flow.render(ov.of_operand(c.args[1]))]
     terms, seen = _explore(b, ATOMS, stop_blocks=set(pushes) | set(raw), max_states=400000)
     bad = []
@@ -442,7 +442,7 @@ def run(ctx, prog):
     util.bind_role(b, 'embedding', type_rx=r'^alloc::vec::Vec<f32>$', origin_rx=r'Option::unwrap_or\(.*\)\.0$')
     util.bind_role(b, 'metadata', type_rx=T_STRMAP, origin_rx=r'Option::unwrap_or\(.*\)\.1\)?$')
     ov = flow.Origin(b, stop_at_vars=True)
-    push =[c.bb for c in b.calls if c.callee and c.callee.endswith('::push') and c.args and flow.render(ov.of_operand(c.args[0])) == 'var:query_responses']
+    push = [c.bb for c in b.calls if c.callee and c.callee.endswith('::push') and c.args and flow.render(ov.of_operand(c.args[0])) == 'var:query_responses']
     mism = []
     own_edges, ns_edges, found_f, tnone = [], [], [], []
     for i, blk in enumerate(b.blocks):
@@ -518,7 +518,8 @@ def run(ctx, prog):
         b = bodies[h]
         # metadata: the client's map, moved out of the request; documents: the queue of (id, embedding, metadata) rows that bulk_load_hnsw fills
         util.bind_role(b, 'metadata', type_rx=T_STRMAP, origin_rx=r'^(?:var|arg):\w+→\w+Request\.metadata$')
-        util.bind_role(b, 'documents', type_rx=r'^alloc::vec::Vec<\(u64, alloc::vec::Vec<f32>, std::collections::hash::map::HashMap<alloc::string::String, alloc::string::String>\)>$', origin_rx=NEW_VEC)
+        if h == 'bulk_load_hnsw':
+            util.bind_role(b, 'documents', type_rx=r'^alloc::vec::Vec<\(u64, alloc::vec::Vec<f32>, std::collections::hash::map::HashMap<alloc::string::String, alloc::string::String>\)>$', origin_rx=NEW_VEC)
         of = flow.Origin(b)
         ov = flow.Origin(b, stop_at_vars=True)
         sinks = [c.bb for c in b.calls_to(sink)]
